@@ -136,8 +136,12 @@ func C05(c *Ctx) {
 	p.W[gast.Action] = 10
 	p.W[gast.AndCode] = 5
 	p.W[gast.NotCode] = 4
-	p.ActSpec = func(r *rand.Rand) mon.Spec { return mon.Spec{R: pick(r, 0, 0, 1, 3), Scr: r.Intn(3) == 0, G: r.Intn(2) == 0} }
-	p.PredSpec = func(r *rand.Rand) mon.Spec { return mon.Spec{B: pick(r, 0, 0, 1, 3, 3, 4), Scr: r.Intn(2) == 0, G: r.Intn(3) == 0} }
+	p.ActSpec = func(r *rand.Rand) mon.Spec {
+		return mon.Spec{R: pick(r, 0, 0, 1, 3), Scr: r.Intn(3) == 0, G: r.Intn(2) == 0}
+	}
+	p.PredSpec = func(r *rand.Rand) mon.Spec {
+		return mon.Spec{B: pick(r, 0, 0, 1, 3, 3, 4), Scr: r.Intn(2) == 0, G: r.Intn(3) == 0}
+	}
 	p.W[gast.AndCode] = 8
 	p.W[gast.NotCode] = 5
 	p.StateSpec = func(r *rand.Rand) mon.Spec { return mon.Spec{S: 1 + r.Intn(31), G: r.Intn(2) == 0} }
@@ -272,6 +276,17 @@ func c05Strata() []*gast.Grammar {
 		mk(r("S", gast.S(gast.Star(gast.S(gast.L("a"), gast.St(1, box), gast.L("b"))), gast.Opt(gast.S(gast.St(2, box), gast.L("z"))), obs(3), gast.Star(gast.Dot())))),
 		// action scribbling
 		mk(r("S", gast.S(gast.St(1, box), gast.A(gast.L("a"), 2, mon.Spec{Scr: true}), obs(3), gast.Star(gast.Dot())))),
+		// a throw below two nested recovery operators for its label, both recovery expressions fail;
+		// the abandoned alternative is followed by one that keeps changing the store and backtracking
+		mk(r("S", gast.S(gast.St(1, box), gast.C(gast.Ref("Strict"), gast.Ref("Loose")), obs(2), gast.Star(gast.Dot()))),
+			r("Strict", gast.S(gast.Rec(gast.Ref("Block"), gast.L("\n"), "L1"), obs(3))),
+			r("Block", gast.Rec(gast.Plus(gast.Ref("Entry")), gast.L(" "), "L1")),
+			r("Entry", gast.S(gast.Plus(gast.Cl(gast.Chars("ab"))), gast.St(4, box), gast.C(gast.L(";"), gast.Thr("L1")))),
+			r("Loose", gast.S(gast.Star(gast.C(gast.Ref("Pair"), gast.Ref("Single"), gast.Ref("Junk"))), obs(5))),
+			r("Pair", gast.S(gast.Ref("W"), gast.St(6, box), gast.L("="), gast.Ref("W"))),
+			r("Single", gast.S(gast.Ref("W"), gast.St(7, mon.Spec{S: 8 | 1}), gast.AndE(gast.Ref("Junk")))),
+			r("Junk", gast.Cl(&gast.ClassSpec{Chars: []rune("ab"), Inverted: true})),
+			r("W", gast.Plus(gast.Cl(gast.Chars("ab"))))),
 		// a label thrown below two nested recovery expressions for it, both of which change the state and fail
 		mk(r("S", gast.S(gast.St(1, box), gast.Star(gast.C(gast.S(gast.Ref("G"), obs(2)), gast.S(gast.Cl(gast.Chars("ab")), obs(3)))), obs(4), gast.Star(gast.Dot()))),
 			r("G", gast.Rec(gast.Ref("I"), gast.S(gast.St(5, box), gast.L("q")), "L1")),
@@ -285,7 +300,7 @@ func C11(c *Ctx) {
 		"every subset and order of failing blocks arises from the inputs; options Recover(true)/Recover(false) and three file names; in-package harness reads the dynamic type of the error and of each element, Inner identity, pos and prefix; " +
 		"oracle = the model's error list (order of first occurrence, de-duplication by message, prefix file:line:col (offset): rule <display or name>, value alongside errors, panic = last error with nil value or propagated). " +
 		"distinct_nontrivial = distinct (grammar, input, option set) with >=1 code-block error or panic")
-	c.Assume("the position of a recovered panic is not pinned by the property: only its message, type and place (last) are compared")
+	c.Assume("the position in the prefix of a recovered panic is read as the parser's position when the panic was raised (end of the match for an action, current position for predicate and state blocks) - the reading under which 'prefixed with ... line:col (offset) and the rule in which it arose' also covers the final error")
 	p := pegProfile()
 	p.W[gast.Action] = 16
 	p.W[gast.AndCode] = 5
@@ -298,7 +313,9 @@ func C11(c *Ctx) {
 	p.PredSpec = func(r *rand.Rand) mon.Spec {
 		return mon.Spec{B: pick(r, 0, 0, 1, 4), E: pick(r, 0, 0, 1, 2, 3), P: pick(r, 0, 0, 0, 0, 0, 0, 0, 1, 2)}
 	}
-	p.StateSpec = func(r *rand.Rand) mon.Spec { return mon.Spec{S: 1, E: pick(r, 0, 1, 2, 3, 4), P: pick(r, 0, 0, 0, 0, 0, 0, 3)} }
+	p.StateSpec = func(r *rand.Rand) mon.Spec {
+		return mon.Spec{S: 1, E: pick(r, 0, 1, 2, 3, 4), P: pick(r, 0, 0, 0, 0, 0, 0, 3)}
+	}
 	cfg := &MCConfig{
 		Profile: p, Grammars: c11Strata(), NGrammars: c.N(110, 1500),
 		FlagSets:  [][]string{{}, {"-optimize-parser"}},
@@ -353,6 +370,13 @@ func c11Strata() []*gast.Grammar {
 		mk(r("S", gast.A(gast.Star(gast.Ref("A")), 9, mon.Spec{})), &gast.Rule{Name: "A", Display: "an a", Expr: gast.C(gast.S(gast.A(gast.L("a"), 1, mon.Spec{E: 3}), gast.L("x")), gast.A(gast.L("a"), 2, mon.Spec{E: 3}))}),
 		// panic after errors were recorded
 		mk(r("S", gast.S(gast.A(gast.L("a"), 1, mon.Spec{E: 1}), gast.A(gast.L("b"), 2, mon.Spec{P: 4}), gast.L("c")))),
+		// the same block error recorded several times at one position (backtracking over a shared
+		// prefix), then a panic: the list that comes back with the panic is de-duplicated too
+		mk(r("S", gast.S(gast.C(gast.S(gast.Ref("W"), gast.L("!")), gast.S(gast.Ref("W"), gast.L("?")), gast.Ref("W")), gast.Opt(gast.Ref("P")), gast.Star(gast.Dot()))),
+			r("W", gast.A(gast.Plus(gast.Cl(gast.Chars("ab"))), 1, mon.Spec{E: 1})), r("P", gast.A(gast.L("x"), 2, mon.Spec{P: 4}))),
+		// a panic below a lookahead after something was consumed there
+		mk(r("S", gast.S(gast.L("a"), gast.C(gast.S(gast.NotE(gast.S(gast.L("bb"), gast.A(gast.L("c"), 1, mon.Spec{P: 4}))), gast.Star(gast.Dot())), gast.Star(gast.Dot()))))),
+		mk(r("S", gast.S(gast.L("a"), gast.AndE(gast.S(gast.L("b\n"), gast.Plus(gast.L("b")), gast.AndC(2, mon.Spec{P: 2}))), gast.Star(gast.Dot())))),
 		// panic with string / value payloads in predicate and state blocks
 		mk(r("S", gast.S(gast.L("a"), gast.AndC(1, mon.Spec{P: 2}), gast.St(2, mon.Spec{P: 3}), gast.L("b")))),
 	}
@@ -436,9 +460,9 @@ func C14(c *Ctx) {
 		Profile: p, Grammars: c14Strata(), NGrammars: c.N(300, 2500),
 		FlagSets:  [][]string{{}, {"-optimize-parser"}},
 		InputsPer: c.N(90, 200), ExhaustLimit: c.N(200, 800), ExhaustLen: 6,
-		Compare:   CmpVal | CmpEnd | CmpTrace | CmpOK,
+		Compare:    CmpVal | CmpEnd | CmpTrace | CmpOK,
 		NonTrivial: func(m *ref.Result) bool { return m.KindsEval[gast.Throw] >= 1 && m.KindsEval[gast.Recovery] >= 1 },
-		StalePS:   "F02-stale-pred-pos",
+		StalePS:    "F02-stale-pred-pos",
 		KeepGrammar: func(g *gast.Grammar) bool {
 			k := g.KindsUsed()
 			return k[gast.Throw] > 0 && k[gast.Recovery] > 0
@@ -502,8 +526,8 @@ func C17(c *Ctx) {
 		Profile: p, Grammars: c17Strata(), NGrammars: c.N(100, 1200),
 		FlagSets:  [][]string{{}, {"-optimize-parser"}, {"-optimize-basic-latin"}},
 		InputsPer: c.N(140, 300), ExhaustLimit: 0, Invalid: true,
-		OptSets: []OptSet{{Name: "default"}, {Name: "allow", AllowInvalid: true}},
-		Compare: CmpVal | CmpEnd | CmpTrace | CmpInvalid | CmpErrs | CmpOK | CmpInput,
+		OptSets:    []OptSet{{Name: "default"}, {Name: "allow", AllowInvalid: true}},
+		Compare:    CmpVal | CmpEnd | CmpTrace | CmpInvalid | CmpErrs | CmpOK | CmpInput,
 		NonTrivial: func(m *ref.Result) bool { return len(m.InvalidAt) >= 1 },
 		StalePS:    "F02-stale-pred-pos",
 		ExtraInputs: func(g *gast.Grammar, r *rand.Rand) [][]byte {
